@@ -240,6 +240,7 @@ func (fc *FuncCtx) execUnOp(fr *Frame, st *State, t *ssa.UnOp) {
 		if g, ok := t.X.(*ssa.Global); ok {
 			// function variables / package-level values
 			fr.vals[t] = Val{T: v.globalValue(g), GoT: t.Type()}
+			v.assumeTyped(st, v.globalValue(g), t.Type(), nil)
 			if _, isSig := t.Type().Underlying().(*types.Signature); isSig {
 				fr.vals[t] = Val{T: v.globalValue(g), GoT: t.Type(), Origin: &Loc{Root: c.Const("globalfunc:"+g.Pkg.Pkg.Path()+"."+g.Name(), SInt)}}
 			}
